@@ -16,6 +16,9 @@ BODYSETS = {
     # threads whose shots do NOT share the drag model (different tables): per-shot derived state that leaks between calculators shows up here
     'fire||fire(G1)': ['fire', 'fire:G1'],
     'zero||fire(G1)': ['zero', 'fire:G1'],
+    # steep shots with a 20-ft maximum step: within a few steps both projectiles are more than 30 ft above the (shared) station, where the
+    # atmosphere is evaluated per step instead of taken from the station values
+    'steep||steep': ['steep', 'steep'],
 }
 
 
@@ -36,8 +39,12 @@ def body(kind, k, sw):
 
     def f():
         # own weapon (zeroing legitimately writes it), own calculator; everything else is shared between the threads
-        shot = pb.Shot(pb.Weapon(U.Inch(2 + k), U.Inch(12), U.MOA(4 + 3 * k)), ammo, look_angle=U.Degree(2 * k), atmo=sw['atmo'], winds=sw['winds'])
-        c = pb.Calculator(_config={'max_calc_step_size_feet': 0.5 if k != 1 else 0.4})
+        # every thread has its own non-zero look angle (state derived from the sight line must not leak between threads)
+        shot = pb.Shot(pb.Weapon(U.Inch(2 + k), U.Inch(12), U.MOA(4 + 3 * k)), ammo, look_angle=U.Degree(2 * (k + 1) if kind != 'steep' else 70 + 5 * k),
+                       atmo=sw['atmo'], winds=sw['winds'], cant_angle=U.Degree(15 * k))
+        c = pb.Calculator(_config={'max_calc_step_size_feet': (0.5 if k != 1 else 0.4) if kind != 'steep' else 20.0})
+        if kind == 'steep':
+            return ['ok', traj_bits(c.fire(shot, U.Foot(14.0), U.Foot(7.0)).trajectory)]
         if kind == 'fire':
             return ['ok', traj_bits(c.fire(shot, U.Foot(1.0), U.Foot(0.5)).trajectory)]
         if kind == 'firex':
@@ -65,6 +72,7 @@ def solo(bs):
     if bs not in _SOLO:
         res = []
         for k, kind in enumerate(BODYSETS[bs]):
+            H.restore_pristine()
             bodies, sw = make_bodies(bs)
             res.append(bodies[k]())
         _SOLO[bs] = res
@@ -72,6 +80,7 @@ def solo(bs):
 
 
 def run_schedule(bs, order, schedule, gran):
+    H.restore_pristine()       # every execution starts from the library state as imported (a replay must meet the same world)
     bodies, sw = make_bodies(bs)
     r = sched.Run(bodies, schedule, order, gran)
     res = r.run()
@@ -221,7 +230,7 @@ def explore(ctx):
     core.fresh_world()
     quick = ctx.tier == 'quick'
     # monitor first: decides whether line granularity is needed
-    mon_cells = [[bs, k] for bs in ('fire||zero', 'fire||danger', 'firex||fire') for k in range(2)]
+    mon_cells = [[bs, k] for bs in ('fire||zero', 'fire||danger', 'firex||fire', 'steep||steep') for k in range(2)]
     res = ctx.run_part('monitor', mon_cells)
     windows = sum(r.get('windows', 0) for r in res)
     ctx.extra['shared_state_windows_total'] = windows
